@@ -171,6 +171,14 @@ func genC09(seed uint64, tier string) *plan.Plan {
 			pl.Ops = append(pl.Ops, valid())
 		}
 	}
+	if pl.Cfg["proto"] == 1 && r.IntN(3) == 0 {
+		// a UDP session that lives through a template refresh: what is re-announced is what the data
+		// sets sent afterwards are checked against by any collector
+		at := 3 + r.IntN(len(pl.Ops)-2)
+		ops := append([]plan.Op(nil), pl.Ops[:at]...)
+		ops = append(ops, plan.Op{K: "adv", A: int64(601 * time.Second)})
+		pl.Ops = append(ops, pl.Ops[at:]...)
+	}
 	pl.Ops = append(pl.Ops, valid())
 	genSchedule(r, pl, 0, 0)
 	return pl
